@@ -1,0 +1,7 @@
+//go:build !verif
+
+package server
+
+// verifPoint marks a scheduling point. It is a no-op in normal builds; with
+// the verif build tag a hook can hold the calling goroutine there.
+func verifPoint(string) {}
